@@ -4,18 +4,23 @@
 
      seq <cfg> <ev> <ev> ...          (tokens "@<ms>" are the harness's schedule and are skipped)
 
-     cfg  c,<host mac>,<router mac>,<router ip>,<lan ip>,<lan bits>     (hex12, hex12, hex8, hex8, decimal)
+     cfg  c,<host mac>,<host ip>,<router mac>,<router ip>,<lan ip>,<lan bits>   (hex12 hex8 hex12 hex8 hex8 decimal)
      ev   S,<mac>,<ip>                StartHunt
           SI                          StartHunt with nil MAC / non-IPv4 address
           T,<mac>                     StopHunt
           C                           Close
-          W,<i>,<mac>                 loop i runs one iteration (the MAC is the Ethernet destination the harness
-                                      saw, kept for the reader; the model ignores it)
+          L,<i>  K,<i>  D,<i>,<mac>   loop i: lookup / check / write (the MAC is the Ethernet destination the
+                                      harness saw, kept for the reader; the model ignores it)
           R,<op>,<ethsrc>,<smac>,<sip>,<tmac>,<tip>    ProcessPacket on a valid ARP frame (op decimal)
+          X,<ethertype hex4>,<payload hex|->           ProcessPacket on any frame Parse hands over
           O,<mac>,<ip|->              the session's DHCP offer for mac is set / cleared
+          F,<k>                       the connection fails its next k writes
+          AR,<ip>  AT,<dst>,<ip>  AP,<ip>  AA,<dst>,<ip>       Request / RequestTo / Probe / AnnounceTo
+          AW,<dst>,<smac>,<sip>,<tmac>,<tip>   AY,<dst>,...     RequestRaw / Reply
+          AS  AH,<ip>,<tries>                                   Scan / WhoIs
 
    Observation: for every event the frames it emitted, events separated by "/", frames by "+",
-   a frame as op.ethdst.smac.sip.tmac.tip ; "-" when nothing was emitted.
+   a frame as op.ethdst.smac.sip.tmac.tip ; "-" when nothing was emitted; "panic" if ProcessPacket panics.
    Column 2: the same string when the monitor accepts the run, else "spec:" and the violated clauses
    with their positions.  Column 3: the recorded defect class when EVERY violated clause of the run lies
    in a recorded class (the first one), else "-". *)
@@ -27,8 +32,6 @@ Definition TAB : string := String (ascii_of_N 9) EmptyString.
 Definition out3 (m s k : string) : string := m ++ TAB ++ s ++ TAB ++ k.
 
 (* ---- tokens ---- *)
-
-Definition N_of_bytes (l : bytes) : N := fold_left (fun acc b => acc * 256 + b) l 0.
 
 Definition hexN (width : nat) (s : string) : option N :=
   match bytes_of_hex s with
@@ -49,32 +52,60 @@ Definition commas (s : string) : list string := split ","%char s.
 
 Definition parse_cfg (t : string) : option cfg :=
   match commas t with
-  | [c; hm; rm; ri; la; lb] =>
+  | [c; hm; hi; rm; ri; la; lb] =>
       if String.eqb c "c" then
-        match hexN 6 hm, hexN 6 rm, hexN 4 ri, hexN 4 la, N_of_dec lb with
-        | Some a, Some b, Some d, Some e, Some f => if f <=? 32 then Some (mkCfg a b d e f) else None
-        | _, _, _, _, _ => None
+        match hexN 6 hm, hexN 4 hi, hexN 6 rm, hexN 4 ri, hexN 4 la, N_of_dec lb with
+        | Some a, Some a', Some b, Some d, Some e, Some f => if f <=? 32 then Some (mkCfg a a' b d e f) else None
+        | _, _, _, _, _, _ => None
         end
       else None
   | _ => None
   end.
 
+Definition parse6 (k a b cc d e : string) : option (mac * addr * addr) :=
+  match hexN 6 a, hexN 6 b, hexN 4 cc, hexN 6 d, hexN 4 e with
+  | Some dst, Some sm, Some si, Some tm, Some ti => Some (dst, mkAddr sm si, mkAddr tm ti)
+  | _, _, _, _, _ => None
+  end.
+
 Definition parse_event (t : string) : option event :=
   match commas t with
   | [k] => if String.eqb k "SI" then Some StartHuntInvalid
-           else if String.eqb k "C" then Some Close else None
-  | [k; a] => if String.eqb k "T" then option_map StopHunt (hexN 6 a) else None
+           else if String.eqb k "C" then Some Close
+           else if String.eqb k "AS" then Some ApiScan else None
+  | [k; a] =>
+      if String.eqb k "T" then option_map StopHunt (hexN 6 a)
+      else if String.eqb k "L" then option_map Lookup (nat_of_dec a)
+      else if String.eqb k "K" then option_map Check (nat_of_dec a)
+      else if String.eqb k "F" then option_map FailWrites (nat_of_dec a)
+      else if String.eqb k "AR" then option_map ApiRequest (hexN 4 a)
+      else if String.eqb k "AP" then option_map ApiProbe (hexN 4 a)
+      else None
   | [k; a; b] =>
       if String.eqb k "S" then
         match hexN 6 a, hexN 4 b with Some m, Some i => Some (StartHunt (mkAddr m i)) | _, _ => None end
-      else if String.eqb k "W" then
-        match nat_of_dec a, hexN 6 b with Some i, Some _ => Some (Wake i) | _, _ => None end
+      else if String.eqb k "D" then
+        match nat_of_dec a, hexN 6 b with Some i, Some _ => Some (Send i) | _, _ => None end
       else if String.eqb k "O" then
         match hexN 6 a with
         | Some m => if String.eqb b "-" then Some (SetOffer m None)
                     else match hexN 4 b with Some i => Some (SetOffer m (Some i)) | None => None end
         | None => None
         end
+      else if String.eqb k "X" then
+        match hexN 2 a, bytes_of_tok b with Some et, Some pl => Some (RxRaw et pl) | _, _ => None end
+      else if String.eqb k "AT" then
+        match hexN 6 a, hexN 4 b with Some m, Some i => Some (ApiRequestTo m i) | _, _ => None end
+      else if String.eqb k "AA" then
+        match hexN 6 a, hexN 4 b with Some m, Some i => Some (ApiAnnounceTo m i) | _, _ => None end
+      else if String.eqb k "AH" then
+        match hexN 4 a, nat_of_dec b with Some i, Some n => Some (ApiWhoIs i n) | _, _ => None end
+      else None
+  | [k; a; b; cc; d; e] =>
+      if String.eqb k "AW" then
+        match parse6 k a b cc d e with Some (dst, sn, tg) => Some (ApiRequestRaw dst sn tg) | None => None end
+      else if String.eqb k "AY" then
+        match parse6 k a b cc d e with Some (dst, sn, tg) => Some (ApiReply dst sn tg) | None => None end
       else None
   | [k; op; es; sm; si; tm; ti] =>
       if String.eqb k "R" then
@@ -108,20 +139,34 @@ Definition show_frame (f : frame) : string :=
 Definition show_out (o : list frame) : string :=
   match o with [] => "-" | _ => join "+" (map show_frame o) end.
 
-Definition show_outputs (os : list (list frame)) : string :=
-  match os with [] => "-" | _ => join "/" (map show_out os) end.
+(* per position: the frames, or "panic" when ProcessPacket panics on the raw frame *)
+Definition show_pos (c : cfg) (x : state * event * list frame) : string :=
+  match x with
+  | (s, RxRaw et b, out) => match process_raw c s et b with
+                            | Panic => "panic" | Fuel => "fuel" | _ => show_out out
+                            end
+  | (_, _, out) => show_out out
+  end.
+
+Definition show_outputs (c : cfg) (tr : list (state * event * list frame)) : string :=
+  match tr with [] => "-" | _ => join "/" (map (show_pos c) tr) end.
 
 Definition show_viol (v : viol) : string :=
   match v with
   | VConfined => "confined" | VProbeReject => "probe_reject" | VSpoofReply => "spoof_reply"
   | VStopUndone => "stop_undone" | VCloseStops => "close_stops" | VIdempotent => "start_idempotent"
-  | VOther => "other"
+  | VPeriodic => "periodic" | VOther => "other"
   end.
 
 (* ---- known classes ---- *)
 
-(* no recorded defect class is left (K1-K3 were repaired in /repo): every violated clause is reported *)
-Definition explain (c : cfg) (s : state) (e : event) (v : viol) : option string := None.
+Definition KEY_WRITE_ERROR : string := "announce-write-error-ends-loop-hunt-entry-stays".
+
+Definition explain (c : cfg) (s : state) (e : event) (v : viol) : option string :=
+  match v with
+  | VPeriodic | VStopUndone => if known_C13_write_error_kills s e then Some KEY_WRITE_ERROR else None
+  | _ => None
+  end.
 
 (* per position: (position, violation, explanation) *)
 Fixpoint explain_all (c : cfg) (pos : nat) (tr : list (state * event * list frame)) (vs : list (list viol))
@@ -134,7 +179,7 @@ Fixpoint explain_all (c : cfg) (pos : nat) (tr : list (state * event * list fram
 
 Definition run_seq (c : cfg) (evs : list event) : string :=
   let tr := trace c init_state evs in
-  let obs := show_outputs (map snd tr) in
+  let obs := show_outputs c tr in
   let vs := sp_run c sp_init (map (fun x => (snd (fst x), snd x)) tr) in
   let ex := explain_all c 0 tr vs in
   match ex with
